@@ -73,7 +73,7 @@ N_HIST = 5
 # "write-fails-once": same-range history, and the storage's set_trial_param raises once per trial (a
 # transient storage error); the objective catches it and asks again
 HISTORIES = ("empty", "same-range", "different-range", "far-range", "enqueued-in-range", "enqueued-out-of-range",
-             "write-fails-once")
+             "write-fails-once", "enqueued-after-history")
 STEPS = ("0.1", "0.3", "0.25", "1", "7", "1e-3")
 INT_STEPS = (1, 2, 3, 7)
 MAX_FINITE = 8  # Grid / BruteForce only where the domain has <= 8 points
@@ -408,6 +408,13 @@ def apply_history(study: Any, dom: Dom, hist: str) -> Any:
             study.add_trial(create_trial(state=TrialState.COMPLETE, params={NAME: v}, distributions={NAME: d},
                                          value=float((i * 3) % N_HIST)))
         return _MISSING
+    if hist == "enqueued-after-history":
+        # finished trials first (so that relative samplers have a joint space that contains the
+        # name), then a queued value: the queued value must still win
+        apply_history(study, dom, "same-range")
+        v = enqueue_value(dom, True)
+        study.enqueue_trial({NAME: v})
+        return v
     if hist.startswith("enqueued"):
         v = enqueue_value(dom, hist == "enqueued-in-range")
         study.enqueue_trial({NAME: v})
@@ -711,7 +718,7 @@ def guarded_case(spec: tuple, sampler_name: str, hist: str, seed: int, env: Env,
 def histories_for(dom: Dom) -> tuple:
     if dom.kind == "C":
         # changed choices are rejected by contract, a value that is not a choice cannot be stored
-        return ("empty", "same-range", "enqueued-in-range", "write-fails-once")
+        return ("empty", "same-range", "enqueued-in-range", "write-fails-once", "enqueued-after-history")
     return HISTORIES
 
 
